@@ -193,8 +193,10 @@ def make_case_factory(scn, scratch, counters=None):
                 hidden_before = {k: (dleaf.get_bytes(k) if not dleaf.is_dir(k) else None) for k in sorted(dleaf.keys())
                                  if owner(prefixes, k) is not None and k not in pinned}
             targets = sorted(pinned) + [p + "/" + x for p in prefixes for x in ("x.txt", "d")] + ["o", "o.txt"]
+            # keys below a mount prefix that the mounted store may refuse: refused or served there, never routed elsewhere
+            targets += [p + "/" + x for p in prefixes for x in ("__metadata__", "../esc.txt", "d/../../esc2.txt", "d/__metadata__")]
             done = []
-            for _ in range(6):
+            for _ in range(8):
                 k = rnd.choice(targets)
                 kind = rnd.choice(["store_metadata", "makedir", "remove", "removedir", "removedir_recursive", "store"])
                 done.append([kind, k])
